@@ -41,6 +41,13 @@ chk("C19", E1, "model_checking",
     "Full product suite class x feature set x exporting side x export point (a,b in 0..3 records per direction) x in-flight mode on real endpoints (serialise, detach silently, resume, 2 records each way, wire-level sequence-number audit), plus every truncation and every byte position x 4 corruptions of 30 (54) serialised states, a catalogue of field-level rewrites, and DTLS 1.3 refusal.",
     "stateless model checking of the implementation: exhaustive export-point x configuration enumeration and exhaustive single-byte corruption of the serialised state")
 
+chk("C03", E1, "model_checking",
+    "Finite catalogue version x honest side's policy (client: roots+name / InsecureSkipVerify; server: 5 client-auth policies) x credential type x every single deviation of an otherwise competent rogue peer (realised on a real library endpoint by configuration, a dishonest crypto.Signer or the verif flight-editor hook, Finished recomputed where needed) x all delivery fault masks with <=1 (2) faults; an independent policy table decides whether the honest side may complete; where it may not, it must never report an established connection nor deliver application data; positive controls must complete.",
+    "stateless model checking of the implementation: exhaustive enumeration of a finite rogue-peer deviation alphabet x fault masks against an independent policy table")
+chk("C17", E1, "model_checking",
+    "Every (variant, cut-off endpoint, cut position, network mode after the cut, initial interval in {100 ms, 1 s, 7 s}, backoff on/off, follow-up kind, number of timeouts before it, target) combination on the real endpoints for 10 fake minutes; exact fake-clock oracle: retransmissions at I, 2I, 4I ... capped at 60 s, reset only on new data, cookie requests never on a timer, completed endpoints silent except in reply to a peer retransmission, emission count bounded by timer firings x flight size + c x received.",
+    "stateless model checking of the implementation: exhaustive silence / stale-input / storm schedule enumeration with an exact fake-time retransmission-law oracle")
+
 props = [json.loads(l) for l in open('/verif/properties.jsonl')]
 PENDING = "check not built yet in this session (planned in DESIGN.md §5); not a claim that the technique cannot apply"
 NA = {}
